@@ -309,7 +309,7 @@ def build_cases(tier):
         cases.append(("scale/cog/stack2x2x2/thr=3/10", case_scale, dict(fname="centre_of_gravity", shape=(2, 2, 2), args=(Fr(3, 10),))))
         cases.append(("scale/cog/3x3/thr=0", case_scale, dict(fname="centre_of_gravity", shape=(3, 3), args=(0,))))
         cases.append(("scale/cog/2x3/thr=3/10", case_scale, dict(fname="centre_of_gravity", shape=(2, 3), args=(Fr(3, 10),))))
-        cases.append(("stack/cog/3x2x2/thr=3/10/1-frame", case_stack, dict(fname="centre_of_gravity", shape=(3, 2, 2), args=(Fr(3, 10),), as2d=False)))
+        cases.append(("stack/cog/3x1x2/thr=3/10/1-frame", case_stack, dict(fname="centre_of_gravity", shape=(3, 1, 2), args=(Fr(3, 10),), as2d=False)))
         cases.append(("stack/brightest/2x1x3/2-D", case_stack, dict(fname="brightest_pixel", shape=(2, 1, 3), args=(Fr(2, 3),), as2d=True)))
         cases.append(("scale/brightest/2x3", case_scale, dict(fname="brightest_pixel", shape=(2, 3), args=(half,))))
         cases.append(("corr/2x4/pad=2", case_corr, dict(shape=(2, 4), padding=2, content=(1, 2), shifts=[(0, 0), (0, 1), (1, 0)])))
